@@ -12,6 +12,16 @@ TSymbol == 7    TQuoted == 8  TWord == 9    TKeyword == 10  TWhitespace == 11  T
 RECURSIVE ConcatVals(_, _)
 ConcatVals(toks, i) == IF i > Len(toks) THEN <<>> ELSE toks[i][2] \o ConcatVals(toks, i + 1)
 
+\* The same as ConcatVals(toks, 1) = input, computed in one left-to-right pass (inputs of any length): every token value is found
+\* at the offset where the previous one ended, and the last one ends at the end of the input.
+Covers(input, toks) ==
+  LET step(acc, t) ==
+        IF ~acc[1] THEN acc
+        ELSE LET v == t[2]  off == acc[2] IN
+             IF off + Len(v) <= Len(input) /\ \A k \in 1 .. Len(v) : input[off + k] = v[k] THEN <<TRUE, off + Len(v)>> ELSE <<FALSE, 0>>
+      r == FoldL(step, <<TRUE, 0>>, toks)
+  IN r[1] /\ r[2] = Len(input)
+
 (* C04: with all options off the values concatenate to the input; the last   *)
 (* token is the only end-of-input marker and is empty; all others non-empty. *)
 LosslessFails(input, toks) ==
@@ -19,7 +29,7 @@ LosslessFails(input, toks) ==
   ELSE (IF toks[Len(toks)][1] = TEof /\ toks[Len(toks)][2] = <<>> THEN "" ELSE "last token is not an empty end-of-input marker; ")
     \o (IF \A i \in 1 .. Len(toks) - 1 : toks[i][1] # TEof THEN "" ELSE "end-of-input marker before the end; ")
     \o (IF \A i \in 1 .. Len(toks) - 1 : toks[i][2] # <<>> THEN "" ELSE "empty token; ")
-    \o (IF ConcatVals(toks, 1) = input THEN "" ELSE "token values do not concatenate to the input; ")
+    \o (IF Covers(input, toks) THEN "" ELSE "token values do not concatenate to the input; ")
 Lossless(input, toks) == LosslessFails(input, toks) = ""
 
 (* ---- options (C15) ---- *)
